@@ -463,12 +463,33 @@ fn wmo_drive(_s: &Seed, data: &[u8], p: &mut Probe) {
             let _ = w.version();
         });
     }
-    p.call("WmoParser::parse_root", || wow_wmo::WmoParser::new().parse_root(&mut Cursor::new(data)));
+    if let Some(mut root) = p.call("WmoParser::parse_root", || wow_wmo::WmoParser::new().parse_root(&mut Cursor::new(data))) {
+        // what a caller does with a parsed root: validate it, build render data, convert it, write it again
+        p.call("WmoValidator::validate_root", || wow_wmo::WmoValidator::new().validate_root(&root));
+        p.call_plain("WmoVisualizer", || {
+            let v = wow_wmo::WmoVisualizer::new();
+            let m = v.create_mesh(&root, &[]);
+            std::hint::black_box((m.positions.len(), v.extract_doodads(&root).len()))
+        });
+        p.call("WmoWriter::write_root", || wow_wmo::WmoWriter::new().write_root(&mut Cursor::new(Vec::new()), &root, root.version));
+        if p.call("WmoConverter::convert_root", || wow_wmo::WmoConverter::new().convert_root(&mut root, wow_wmo::WmoVersion::Cataclysm)).is_some() {
+            p.call("WmoWriter::write_root", || wow_wmo::WmoWriter::new().write_root(&mut Cursor::new(Vec::new()), &root, wow_wmo::WmoVersion::Cataclysm));
+        }
+    }
     p.call("WmoGroupParser::parse_group", || wow_wmo::WmoGroupParser::new().parse_group(&mut Cursor::new(data), 0));
     p.call("discover_wmo_chunks", || wow_wmo::discover_wmo_chunks(&mut Cursor::new(data)));
+    p.call("parse_wmo_with_metadata", || wow_wmo::api::parse_wmo_with_metadata(&mut Cursor::new(data)));
+    // the two file parsers behind the format detection, each on whatever the bytes are (a root parser handed a group file and
+    // the reverse are reachable only this way)
+    if let Some(d) = p.call("chunk_discovery::discover_chunks", || wow_wmo::chunk_discovery::discover_chunks(&mut Cursor::new(data)).map_err(|e| e.to_string())) {
+        let d2 = d.clone();
+        p.call("root_parser::parse_root_file", || wow_wmo::root_parser::parse_root_file(&mut Cursor::new(data), d).map_err(|e| e.to_string()));
+        p.call("group_parser::parse_group_file", || wow_wmo::group_parser::parse_group_file(&mut Cursor::new(data), d2).map_err(|e| e.to_string()));
+    }
 }
 
-const WMO_ENTRIES: &[&str] = &["parse_wmo", "ParsedWmo accessors", "WmoParser::parse_root", "WmoGroupParser::parse_group", "discover_wmo_chunks"];
+const WMO_ENTRIES: &[&str] = &["parse_wmo", "ParsedWmo accessors", "WmoParser::parse_root", "WmoGroupParser::parse_group", "discover_wmo_chunks", "WmoValidator::validate_root", "WmoVisualizer",
+    "WmoWriter::write_root", "WmoConverter::convert_root", "parse_wmo_with_metadata", "chunk_discovery::discover_chunks", "root_parser::parse_root_file", "group_parser::parse_group_file"];
 
 pub fn formats() -> Vec<FormatDef> {
     vec![
